@@ -17,6 +17,6 @@ CFG = {
         "the ReSync path (CorrectPastBeacons -> raw store) bypasses the stack: covered by C02_resync_harmless / C02_resync_keeps_prev_refuted, not by C02_gapfree",
         "SyncManager.tryNode's ErrBeaconAlreadyStored handling (sync_put) is modelled from the source but not driven by the harness (needs a network peer); its Put goes through the same stack_put that is compared",
     ],
-    "level_text": "For ALL event lists on a node (Put attempts by any mix of writers with arbitrary beacons, chainStore.tryAppend with fresh or stale views, sync puts, injected failures of the base store, stop/restart; by induction over the list) over each back-end and for chained and unchained schemes: the store stack callback(append(scheme(discrepancy(base)))) keeps the invariant of C02_node_invariant, hence the base holds exactly rounds 0..head (ring: the newest cap rounds), every round 1..head was written exactly once and in order, the head never decreases, on chained schemes prev(r) = sig(r-1) and on unchained ones prev is stripped (C02_gapfree, C02_head_monotone), no stored round is ever replaced by a different value (C02_no_rewrite), a restart changes nothing (C02_restart_identity), tryAppend reports success only if the round is then stored with that signature (C02_tryappend). Under signature uniqueness two all-verified chains with the same genesis agree bytewise on every common round (C02_agree, induction on the round), and any two nodes whose writers hand over verified beacons hold identical beacons for every round both have, whatever their back-ends and histories (C02_node_chain, C02_nodes_agree). The model is compared with the real newAppendStore/NewSchemeStore/newDiscrepancyStore/NewCallbackStore/tryAppend over real bolt (trimmed, untrimmed) and memdb on every run; an independent monitor checks contiguity, linkage, no-rewrite, head monotonicity and once-only callbacks on the implementation's scans. C02_system_agree (Model/Net.v, see C04): in every reachable system state any two honest nodes hold the same beacon for every common round, whatever the adversary delivered, injected or served. Tied to the code by the system engine (several real Handlers on memdb/bolt, harness = network + adversary) with a monitor comparing the real stores.",
+    "level_text": "For ALL event lists on a node (Put attempts by any mix of writers with arbitrary beacons, chainStore.tryAppend with fresh or stale views, sync puts, injected failures of the base store, stop/restart; by induction over the list) over each back-end and for chained and unchained schemes: the store stack callback(append(scheme(discrepancy(base)))) keeps the invariant of C02_node_invariant, hence the base holds exactly rounds 0..head (ring: the newest cap rounds), every round 1..head was written exactly once and in order, the head never decreases, on chained schemes prev(r) = sig(r-1) and on unchained ones prev is stripped (C02_gapfree, C02_head_monotone), no stored round is ever replaced by a different value (C02_no_rewrite), a restart changes nothing (C02_restart_identity), tryAppend reports success only if the round is then stored with that signature (C02_tryappend). Under signature uniqueness two all-verified chains with the same genesis agree bytewise on every common round (C02_agree, induction on the round), and any two nodes whose writers hand over verified beacons hold identical beacons for every round both have, whatever their back-ends and histories (C02_node_chain, C02_nodes_agree). The model is compared with the real newAppendStore/NewSchemeStore/newDiscrepancyStore/NewCallbackStore/tryAppend over real bolt (trimmed, untrimmed) and memdb on every run, restarts reopening the bolt file through the daemon's format probe (once per bolt configuration while the file lock is still held for 1.5 s); an independent monitor checks contiguity, linkage, no-rewrite, head monotonicity and once-only callbacks on the implementation's scans. C02_system_agree (Model/Net.v, see C04): in every reachable system state any two honest nodes hold the same beacon for every common round, whatever the adversary delivered, injected or served. Tied to the code by the system engine (several real Handlers on memdb/bolt, harness = network + adversary) with a monitor comparing the real stores.",
     "level_note": "Kernel-checked, no axioms, stdlib only; BLS uniqueness and 'only verified beacons are put' are explicit hypotheses of the agreement theorems. The multi-node corollary over the network model (C02_net) is built separately on C02_node_chain / C02_nodes_agree. Caveat proved as C02_resync_keeps_prev_refuted: the ReSync path on unchained + untrimmed bolt can store a peer-chosen previous_signature (F14, replayed on the real store by the engine and reported as an observation).",
 }
